@@ -166,6 +166,19 @@ def _walk_no_nested(node):
                 stack.append(c)
 
 
+def _canonicalise(tree):
+    """Drop `pass` statements that share a block with other statements: they
+    have no effect, and rules that speak of the first / last / only statement
+    of a block must not depend on them."""
+    for n in ast.walk(tree):
+        for fld in ("body", "orelse", "finalbody"):
+            blk = getattr(n, fld, None)
+            if isinstance(blk, list) and len(blk) > 1 \
+                    and any(isinstance(x, ast.Pass) for x in blk):
+                kept = [x for x in blk if not isinstance(x, ast.Pass)]
+                setattr(n, fld, kept or blk[:1])
+
+
 class Program:
     def __init__(self, repo_root=None, overlay=None, package="dagrt"):
         self.repo_root = repo_root or REPO_ROOT
@@ -224,6 +237,7 @@ class Program:
             tree = ast.parse(src, filename=path)
         except SyntaxError as e:
             raise AnalysisError(f"cannot parse {rel}: {e}")
+        _canonicalise(tree)
         m = Module(modname, path, rel, src, tree, trusted=trusted)
         m.is_pkg = is_pkg
         m.imports = _import_table(_module_level_imports(tree), modname, is_pkg)
